@@ -122,6 +122,8 @@ Definition rfa_match_x (tol : Qc) (m : res (list Qc * list Qc)) (ox : list Qc) (
         m = m if m is not None else rng.choice([2, 3, 3, 4, 5, 6, 8])
         n = n if n is not None else rng.choice([2, 3, 4, 4, 5, 8, 8, 16])      # (not `n or ...`: the factor 0 is a case of its own)
         c = {"strategy": strategy, "x": gens.sorted_x(rng, m) if rng.random() < 0.85 else gens.loose_x(rng, m), "y": gens.values(rng, m), "n": n, "int_x": False}
+        if all(float(v).is_integer() for v in c["x"]) and rng.random() < 0.5:
+            c["int_x"] = True      # integer-typed abscissae (epoch seconds, sample numbers): numbers like any others
         if isinstance(n, int) and rng.random() < 0.15:
             c["n_np"] = True       # the factor as a NumPy integer scalar (np.rint(period / target).astype(int), an element of np.arange)
         if strategy in ("linfixed", "linadapt", "expfixed", "expadapt"):
@@ -209,6 +211,15 @@ Definition rfa_match_x (tol : Qc) (m : res (list Qc * list Qc)) (ox : list Qc) (
             c["x"] = [k * 2.0 ** -30 for k in (0, 1, 3, 4, 8)]
             c["y"] = gens.values(rng, 5)
             cases.append(c)
+        # integer-typed, unevenly spaced abscissae whose FIRST gap is a multiple of n while others are not (a grid that "falls on
+        # integers" in the first interval only): every strategy, every run
+        for s in STRATS:
+            for xs_, n_ in (([0, 4, 5, 7, 13, 14], 4), ([10, 12, 15, 16, 21], 2), ([3, 9, 10, 14, 15], 3)):
+                c = self.mk(rng, s, m=len(xs_), n=n_)
+                c["x"] = [float(v) for v in xs_]
+                c["y"] = gens.values(rng, len(xs_))
+                c["int_x"] = True
+                cases.append(c)
         # n < 2 rejections
         for s in STRATS:
             for n in (1, 0, -1, 1.5):
@@ -230,7 +241,8 @@ Definition rfa_match_x (tol : Qc) (m : res (list Qc * list Qc)) (ox : list Qc) (
         x = np.array(c["x"], dtype=float)
         y = np.array(c["y"], dtype=float)
         try:
-            inst = cls_of(c["strategy"])(x, y, np.int64(c["n"]) if c.get("n_np") else c["n"], **kwargs_of(c))
+            xin = np.array([int(v) for v in c["x"]], dtype=np.int64) if c.get("int_x") and all(float(v).is_integer() for v in c["x"]) else x
+            inst = cls_of(c["strategy"])(xin, y, np.int64(c["n"]) if c.get("n_np") else c["n"], **kwargs_of(c))
             xs, ys = inst.rfa()
             o = {"kinds": [type(xs).__name__, type(ys).__name__],
                  "ndim": [int(np.ndim(xs)), int(np.ndim(ys))],
@@ -530,7 +542,10 @@ class AdaptiveWindowsUnit(Unit):
                 ys = [base + v for v in ys]
             elif kind < 0.35:
                 ys = [v * 2.0 ** -30 for v in ys]
-            c = {"strategy": "linadapt", "x": [float(i) for i in range(m)], "y": ys, "n": n,
+            # abscissae: unit spacing, or clearly uneven (the windows are split by the *jumps* of the values; how long the
+            # neighbouring intervals are plays no part)
+            xs_ = [float(i) for i in range(m)] if rng.random() < 0.5 else gens.sorted_x(rng, m, rng.choice(["ratio", "int", "dyadic"]))
+            c = {"strategy": "linadapt", "x": xs_, "y": ys, "n": n,
                  "a": rng.choice([2, 3, n, n // 2, max(2, n - 1)]), "alpha": None, "smooth": rng.choice([1.0, 1.0, 1.0, 2.0, 3.0])}
             if adaptive_windows_exact(c)[2]:
                 cases.append(c)
